@@ -58,6 +58,7 @@ type FuncContract struct {
 	Tier       string // "thorough": only checked in the thorough tier
 	Expand     bool     // lemma: prove by expanding quantifiers over constant ranges
 	Uses       []string // lemmas assumed in this function
+	ParamNames []string // wildcard blocks ("f$*"): only closures with exactly these parameter names
 	Params     []SpecParam // for lemmas
 }
 
@@ -294,6 +295,8 @@ func ParseContractFile(path string) (*ContractFile, error) {
 				cur.Mode = rest
 			case "expand":
 				cur.Expand = true
+			case "params":
+				cur.ParamNames = strings.Fields(rest)
 			case "uses":
 				cur.Uses = append(cur.Uses, strings.Fields(rest)...)
 			case "tier":
